@@ -2,8 +2,6 @@ package padding
 
 import (
 	"errors"
-
-	"github.com/emmansun/gmsm/internal/byteorder"
 )
 
 // The padded data comprises (in this order):
@@ -42,12 +40,21 @@ func (pad iso9797M3Padding) Pad(src []byte) []byte {
 	}
 
 	tail = head[srcLen+pad.BlockSize():]
-	clear(head[:pad.BlockSize()])
+	// move the data first: head may share its memory with src
 	copy(head[pad.BlockSize():], src)
+	clear(head[:pad.BlockSize()])
 	if overhead > 0 {
 		clear(tail)
 	}
-	byteorder.BEPutUint64(head[8:], uint64(srcLen*8))
+	// the length block holds the bit length, big-endian, in one whole block
+	bits := uint64(srcLen) * 8
+	for i := pad.BlockSize() - 1; i >= 0 && bits > 0; i-- {
+		head[i] = byte(bits)
+		bits >>= 8
+	}
+	if bits > 0 {
+		panic("padding: src is too long for the block size")
+	}
 	return head
 }
 
@@ -57,14 +64,20 @@ func (pad iso9797M3Padding) Unpad(src []byte) ([]byte, error) {
 	if srcLen < 2*pad.BlockSize() || srcLen%pad.BlockSize() != 0 {
 		return nil, errors.New("padding: invalid src length")
 	}
-	for _, b := range src[:8] {
-		if b != 0 {
+	var bits uint64
+	for _, b := range src[:pad.BlockSize()] {
+		if bits>>56 != 0 {
 			return nil, errors.New("padding: invalid padding header")
 		}
+		bits = bits<<8 | uint64(b)
 	}
-	dstLen := int(byteorder.BEUint64(src[8:pad.BlockSize()])/8)
-	if dstLen < 0 || dstLen > srcLen-pad.BlockSize() {
+	if bits%8 != 0 || bits/8 > uint64(srcLen-pad.BlockSize()) {
 		return nil, errors.New("padding: invalid padding header")
+	}
+	dstLen := int(bits / 8)
+	// the data is followed by as few zero bytes as possible (a whole block if it is empty)
+	if tailLen := srcLen - pad.BlockSize() - dstLen; tailLen >= pad.BlockSize() && (dstLen > 0 || tailLen > pad.BlockSize()) {
+		return nil, errors.New("padding: invalid padding bytes")
 	}
 	padded := src[pad.BlockSize()+dstLen:]
 	for _, b := range padded {
